@@ -265,7 +265,17 @@ fn after(ev: &Event) {
         }
         let mut g = SCHED.lock().unwrap();
         let s = g.as_mut().unwrap();
+        // aliased block (object 0 mapped once per thread): the name is the offset inside the block; an access
+        // through another thread's mapping means an absolute address was stored in the shared structure
+        let alias = crate::c16_vec::ALIAS_RANGES.lock().unwrap().iter().find(|(b, sz, _)| ev.addr >= *b && ev.addr < b + sz).cloned();
+        if let Some((_, _, k)) = alias {
+            let n = crate::c16_vec::ALIAS_RANGES.lock().unwrap().len();
+            if k != tid % n {
+                s.trace.push(format!("T{tid} foreign-mapping alias{k}"));
+            }
+        }
         let loc = match s.objects.iter().enumerate().find(|(_, (b, sz))| ev.addr >= *b && ev.addr < b + sz) {
+            _ if alias.is_some() => format!("o0+{}", ev.addr - alias.unwrap().0),
             Some((i, (b, _))) => format!("o{}+{}", i, ev.addr - b),
             None if ev.kind == 14 => "-".to_string(),
             None => format!("x{:x}", ev.addr),
@@ -324,6 +334,8 @@ pub fn execute(bodies: Vec<Box<dyn FnOnce(usize) + Send>>, schedule: Vec<usize>,
     for (tid, body) in bodies.into_iter().enumerate() {
         handles.push(std::thread::spawn(move || {
             TID.with(|t| t.set(Some(tid)));
+            // C14: every logical thread works through its own mapping of an aliased block
+            crate::c16_vec::ALIAS.with(|a| a.set(tid));
             // initial parking: wait until selected for the first time
             {
                 let mut g = SCHED.lock().unwrap();
